@@ -160,8 +160,29 @@ def run(ctx):
     binary = ctx.go_build("lifecycle")
     pool = ThreadPoolExecutor(max_workers=8)
 
+    if ctx.replay:
+        rp = json.load(open(ctx.replay))["replay"]
+        if rp.get("kind") == "trace":
+            # a recorded stress round: judge the history again, look it up in the as-built spec again
+            lines = [json.loads(l) for l in open(rp["file"]) if l.strip()]
+            b, _ = judge_traces(ctx, "replay-trace", [lines])
+            ctx.cov["rule"] = "replay of one recorded stress round"
+            for j, rec in b.items():
+                used = explain(ctx, {}, dev, lines, rec)
+                what = "stress round %s: read back %s, acknowledged history allows %s" % (lines[0].get("plan"), rec["file"], rec["allowed"])
+                if used is None:
+                    ctx.deviation(None, what + " - no behaviour of the as-built specification has this history and final state", rp)
+                else:
+                    for d in (used or {"?"}):
+                        ctx.deviation(FID.get(d), what + " (as-built behaviour found by TLC, deviation %s)" % d, rp)
+            ctx.sample(dict(kind="replayed stress round", lines=lines[:8]))
+            ctx.cov["traces_validated_against_impl"] += 1
+            return
+
     # ------------------------------------------------------------------ 1. exhaustive TLC
-    if thorough:
+    if ctx.replay:
+        strict_cfgs, attr_cfgs = [("MenuDelSet2", ("k1",), False)], []       # a replay re-runs one schedule: spec sanity only
+    elif thorough:
         strict_cfgs = [(m, i, s) for m in MENUS for i in INITS for s in (False, True)] + [("MenuFull", ("k1",), False)]
         attr_cfgs = [(m, i, s) for m in MENUS for i in INITS[:2] for s in (False, True)]
     else:
@@ -186,7 +207,7 @@ def run(ctx):
         r = ctx.tlc("Sim_Lifecycle", cfg_text=cfg("MCSpec", dev, m, i, s, "VIEW view\nINVARIANTS NoWitness", want=need),
                     deadlock=False, workers=1, timeout=3000, name="witness-" + "+".join(need), count_states=False)
         return w, r
-    wfuts = [pool.submit(wit, w) for w in WITNESSES if set(w[0]) <= dev]
+    wfuts = [pool.submit(wit, w) for w in WITNESSES if set(w[0]) <= dev and not ctx.replay]
 
     # disabled-action probes: states in which the spec does not allow SummonSwamp / the vigil drain to go on
     PROBES = {"summon": ("NoProbeSummon", dict(kind="summon", r="r2", op=dict(op="set", k="k2"))),
@@ -197,7 +218,7 @@ def run(ctx):
         r = ctx.tlc("Sim_Lifecycle", cfg_text=cfg("MCSpec", dev, "MenuDelSet2", ("k1",), False, "VIEW view\nINVARIANTS " + inv, want=()),
                     deadlock=False, workers=1, timeout=3000, name="probe-" + kind, count_states=False)
         return kind, rec, r
-    pfuts = [pool.submit(probe, k) for k in sorted(PROBES)]
+    pfuts = [pool.submit(probe, k) for k in sorted(PROBES) if not ctx.replay]
 
     # ------------------------------------------------------------------ 3. sampled complete behaviours of the as-built spec
     sim_cfgs = [("MenuSetDel", ("k1",), False), ("MenuShift", ("k1", "k2"), False), ("MenuDestroy", ("k1",), False),
@@ -209,7 +230,7 @@ def run(ctx):
         r = ctx.tlc("Sim_Lifecycle", cfg_text=cfg("MCSpec", dev, m, i, s, "INVARIANTS ExportTerminal", want=()),
                     deadlock=False, workers=1, simulate=nsim, depth=80, timeout=3000, name="sim-%d" % j, count_states=False)
         return c, r
-    sfuts = [pool.submit(sim, j, c) for j, c in enumerate(sim_cfgs if thorough else sim_cfgs[:4])]
+    sfuts = [pool.submit(sim, j, c) for j, c in enumerate(sim_cfgs if thorough else sim_cfgs[:4]) if not ctx.replay]
 
     for f in futs:
         kind, c, r = f.result()
@@ -298,7 +319,13 @@ def run(ctx):
         if sc.get("probe"):
             # the schedule ends in a state where the probed step is disabled; after the probe everything runs freely,
             # so there is no predicted final state: TLC judges the history, a loss must be an as-built behaviour
-            if r.get("mismatch"):
+            if r.get("mismatch") and str(r["mismatch"]).startswith("probe:"):
+                # the code took a step the specification forbids in this state (summon of a closing swamp / Destroy
+                # without draining the vigils): the mechanisms C16 rests on; a violation whether or not this run lost data
+                ctx.deviation(None, "schedule %s: %s%s" % (sc["id"], r["mismatch"],
+                              ("; acknowledged write lost: read back %s, allowed %s" % (bad[i]["file"], bad[i]["allowed"])) if lost else ""), rep)
+                continue
+            elif r.get("mismatch"):
                 problem = "step %s: %s" % (r.get("at_step"), r["mismatch"])
             elif lost:
                 used = explain(ctx, cache, dev, trace_lines(r), bad[i])
